@@ -26,13 +26,31 @@ exec(open(os.path.join(VERIF, "lib", "claims.py")).read())
 # ---------------------------------------------------------------------------
 
 
+LEAF_COMMON = ("Translator route: on every run `harness go2v` translates the current Go source of the leaf functions below into Gallina "
+               "and the theorems of coq/leaf are re-checked against that translation (a failing theorem triggers LeafSearch.v, a kernel-evaluated "
+               "search for an input on which the translated function differs from its specification): ")
+LEAF = {
+    "C01": LEAF_COMMON + "nfa.isWordByte / nfa.checkLookAssertion = Nfa.is_word_byte / Nfa.look_ok (the assertion semantics of the reference), never out of range.",
+    "C14": LEAF_COMMON + "nfa.isWordByte, lazy.isWordByte = Nfa.is_word_byte on all bytes; nfa.checkLookAssertion = Nfa.look_ok for every kind, haystack, position.",
+    "C18": LEAF_COMMON + "simd.isWordChar (the scalar definition MemchrWord / MemchrNotWord are compared with) = Nfa.is_word_byte on all bytes.",
+    "C04": LEAF_COMMON + "meta.emptyMatchStep and regex.go's emptyMatchStep = FindAll.empty_match_step (the step loop_eq_std is stated with), never out of range.",
+    "C08": LEAF_COMMON + "regex.go's emptyMatchStep (used by the Replace loops) = FindAll.empty_match_step, never out of range.",
+    "C07": LEAF_COMMON + "nfa.runeWidth in 1..4 and within the slice, and the _safe predicates (no index / slice out of range) of the translated leaves.",
+    "C15": LEAF_COMMON + "nfa.isASCIILetter / toUpperASCII / toLowerASCII (the ASCII case orbit used by compileFoldCaseRune).",
+    "C19": LEAF_COMMON + "meta.lineStartBefore / meta.findLineStart return the start of the line (reverse-suffix searchers).",
+}
+
+
 def main():
     checks = []
     for pid in ALL:
         if pid not in CLAIMED:
             NOT_APPLICABLE.setdefault(pid, "machinery for this property is not built yet (work in progress; see DESIGN.md section 9)")
             continue
-        c = CLAIMED[pid]
+        c = dict(CLAIMED[pid])
+        if pid in LEAF:
+            c["text"] += " " + LEAF[pid]
+            c["technique"] += " + leaf translator (go2v: Go source -> Gallina, theorems re-checked against the translation of the current source)"
         checks.append({
             "property_id": pid,
             "quick_cmd": "./check %s --tier quick" % pid,
